@@ -48,6 +48,12 @@ def gen_cases(ck):
         cases.append({"type": "units", "seed": int(ck.rng.integers(1 << 30)), "tissue": ["random", "jitter"][int(ck.rng.integers(2))],
                       "sites": int(ck.rng.integers(24, 46)), "subset": None, "min_ridge": 0.005, "mobius": True, "strength": 1.0, "kmin": 1, "kmax": 4,
                       "fit": "dlite", "lam": float(10.0 ** ck.rng.uniform(-3, 3)), "mu": float(10.0 ** ck.rng.uniform(-3, 3))})
+    for i in range(3 if ck.tier == "quick" else 12):
+        # the corners of the unit square: small lengths with long time units (tiny speeds in the chosen units) and the opposite
+        sgn = [-1, 1, -1][i % 3]
+        cases.append({"type": "units", "seed": int(ck.rng.integers(1 << 30)), "tissue": ["random", "jitter"][i % 2],
+                      "sites": int(ck.rng.integers(24, 46)), "subset": None, "min_ridge": 0.005, "mobius": True, "strength": 1.0, "kmin": 1, "kmax": 4,
+                      "fit": "dlite", "lam": float(10.0 ** (sgn * ck.rng.uniform(3.5, 4.5))), "mu": float(10.0 ** (-sgn * ck.rng.uniform(3.5, 4.5)))})
     return cases
 
 
@@ -248,6 +254,16 @@ def run_units_case(ck, case, reqs, pending):
     x1, A1, keep1 = r1
     if not A.size or len(x0) != len(x1):
         ck.count("rejected_no_equations"); return
+    # the adimensional right-hand side itself (what the solver received, after the three-decimal rounding): the two unit systems may
+    # differ by one unit of that rounding and no more
+    rec0, rec1 = getattr(keep0[0].force_matrices[0], "_verif", None), getattr(keep1[0].force_matrices[0], "_verif", None)
+    if rec0 is not None and rec1 is not None and len(rec0["b"]) == len(rec1["b"]):
+        db = float(np.max(np.abs(np.asarray(rec0["b"], dtype=float) - np.asarray(rec1["b"], dtype=float))))
+        if db > 1.0000001e-3:
+            ck.fail("with adimensional velocities the dynamic tensions are unchanged when all lengths / all time stamps are multiplied by a positive factor "
+                    "(the velocity term handed to the solver is the same up to its three-decimal rounding)",
+                    f"lambda {case['lam']:.3g} mu {case['mu']:.3g}: right-hand sides differ by {db:.3g}", case)
+        ck.count("units_right_hand_sides_compared")
     n = A.shape[1]
     M = np.block([[A, np.ones((A.shape[0], 1))], [np.ones((1, n)), np.zeros((1, 1))]])
     sv = np.linalg.svd(M, compute_uv=False)
